@@ -56,6 +56,27 @@ def rule_legacy_attr_parser(ctx):
             "(`#[deref] #[deref(ignore)]`, `#[deref] #[deref(forward)]`) is silently ignored",
             {"stmts": [s[:60] for s in stmts]},
         )
+    # the bare marker `#[attr]` says nothing but 'this item takes part': `get_meta_info` itself writes no flag of the
+    # result other than `enabled` (every other slot is written by the parameter that names it, in the nested parser) -
+    # a stray `info.forward = Some(false)` here overrides the container's `#[attr(forward)]` for that field
+    stray = []
+    for asg, _ in A.find(fn.block, "Expr::Assign"):
+        l = A.peel(asg["left"])
+        if A.kind(l) == "Expr::Field" and A.kind(l["member"]) == "Member::Named" and A.render(l["base"]) == "info" and l["member"]["0"]["sym"] != "enabled":
+            stray.append(A.render(asg))
+    for mc_, _ in A.find(fn.block, "Expr::MethodCall"):
+        r_ = A.render(mc_["receiver"])
+        if mc_["method"]["sym"] in ("insert", "replace", "get_or_insert", "get_or_insert_with", "take") and re.fullmatch(r"info\.(\w+)", r_) and not r_.endswith(".enabled"):
+            stray.append(A.render(mc_)[:60])
+    for lit_, _ in A.find(fn.block, "Expr::Struct"):
+        if A.path_last(lit_["path"]) == "MetaInfo":
+            for fv in lit_["fields"]:
+                nm_ = fv["member"]["0"]["sym"] if A.kind(fv["member"]) == "Member::Named" else None
+                if nm_ not in (None, "enabled") and A.render(fv["expr"]) not in ("None",):
+                    stray.append(f"{nm_}: {A.render(fv['expr'])[:40]}")
+    ctx.instance("get_meta_info:only-enabled-written", sample={"stray writes": stray})
+    if stray:
+        ctx.report("legacy:stray-flag-write", w, f"`get_meta_info` writes a flag the attribute did not name ({stray[0]}): a bare `#[attr]` marker (or any attribute) then carries a setting of its own that overrides what the container's attribute says (`#[deref(forward)] struct S(#[deref] Box<i32>)` stops forwarding)", {})
     # (how the empty `#[attr]` and the name-value form are refused is REJECT-LEDGER's subject: rows of get_meta_info)
     pn = A.get_fn(ctx.files, UTILS, "parse_punctuated_nested_meta")
     w = ctx.where(f, pn.node)
